@@ -24,7 +24,8 @@ def main():
     mod = importlib.import_module("props." + a.prop.lower())
     try:
         if a.replay:
-            return mod.replay(a.replay)
+            import replaywit
+            return replaywit.replay(a.prop.upper(), a.replay)
         return mod.run(a.tier, seed)
     except tlcrun.MachineryError as ex:
         print(f"MACHINERY-FAILURE property={a.prop}: {ex}", file=sys.stderr)
